@@ -1,3 +1,4 @@
+import BalmProofs.ControlSound
 import BalmProofs.DriversComplete
 import BalmProofs.DriversSpec
 import Balm
